@@ -168,3 +168,21 @@ End PI.
 Theorem isoelectric_point_matches_model f : agree (fst (isoelectric f)) (MiniPy.exec (pi_prim f) 221 g_isoelectric_point pi_env0).
 Proof. unfold isoelectric. apply isoelectric_point_tie. Qed.
 Print Assumptions isoelectric_point_matches_model.
+
+(* ---- end to end: the TRANSLATED CODE never raises and neutralises ----
+   For every sequence with a titratable residue and every oracle within 1/1000 of its exact normalised charge, running
+   the term translated from Sequence.isoelectric_point returns a pH (no exception, no exhausted bound) at which the
+   oracle's charge is within 0.02 of zero. *)
+From Coq Require Import Reals Qreals Qabs.
+From LC Require Import Core.Residue Proofs.PiReal.
+
+Theorem translated_isoelectric_point_never_raises s (f : Q -> Q) : (0 < ntit s)%Z ->
+  (forall q, (Rabs (Q2R (f q) - ncharge (titr_terms s) (Q2R q)) <= 1 / 1000)%R) ->
+  exists x, MiniPy.exec (pi_prim f) 221 g_isoelectric_point pi_env0 = ORet (VQ x) /\ (Qabs (f x) <= 2 # 100)%Q.
+Proof.
+  intros Hpos Hf. destruct (pi_result_neutral s f Hpos Hf) as (x & tr & Hiso & Hq & _).
+  pose proof (isoelectric_point_matches_model f) as H. rewrite Hiso in H. cbn [fst] in H.
+  destruct (MiniPy.exec (pi_prim f) 221 g_isoelectric_point pi_env0) as [| | | v | |]; try contradiction.
+  destruct v; try contradiction. cbn [agree] in H. subst. exists x. split; [reflexivity | exact Hq].
+Qed.
+Print Assumptions translated_isoelectric_point_never_raises.
